@@ -7,6 +7,7 @@ import (
 	"fmt"
 	"os"
 	"runtime/debug"
+	"strings"
 
 	"github.com/akrylysov/pogreb"
 	"github.com/akrylysov/pogreb/fs"
@@ -38,6 +39,11 @@ func realFS(name string) (fs.FileSystem, string, func()) {
 }
 
 func (h *harness) aliasCase(r *rng, name string, nops int) {
+	defer func() {
+		if e := recover(); e != nil {
+			h.emit("aliasfail case=%s panic: %v", name, strings.ReplaceAll(fmt.Sprint(e), "\n", " "))
+		}
+	}()
 	fsName := []string{"mem", "os", "mmap", "mmap", "sim"}[r.intn(5)]
 	fsys, prefix, cleanup := realFS(fsName)
 	defer cleanup()
@@ -114,8 +120,19 @@ func (h *harness) aliasCase(r *rng, name string, nops int) {
 				if r.chance(30) && len(v) > 0 {
 					// the caller may write into its slice: that must not reach the database
 					saved := append([]byte(nil), v...)
-					for j := range v {
-						v[j] ^= 0xFF
+					func() {
+						defer func() {
+							if e := recover(); e != nil {
+								h.emit("aliasfail case=%s fs=%s writing into the slice returned by Get faults (it is not the caller's memory): %v", name, fsName, e)
+								nfail++
+							}
+						}()
+						for j := range v {
+							v[j] ^= 0xFF
+						}
+					}()
+					if nfail > 0 {
+						break
 					}
 					if got, _ := db.Get(k); !bytes.Equal(got, saved) {
 						h.emit("aliasfail case=%s fs=%s writing into the slice returned by Get changed the stored value", name, fsName)
